@@ -937,6 +937,9 @@ def concatenate_ds(datasets, axis=0, align=False, **kwargs):
     dataset = Dataset()
     for v in variables:
         arrays = [ds[v] for ds in datasets]
+        if axis_nm not in arrays[0].dims:
+            dataset[v] = arrays[0] # variables without that dimension are left alone
+            continue
         array = concatenate(arrays, axis=axis_nm, align=False, _no_check=align)
         dataset[v] = array
 
